@@ -217,7 +217,7 @@ Proof.
 Qed.
 
 Lemma close_c2s_inv2 : forall S i pos st, inv2 S i pos false st ->
-  exists st', close_c2s st = (st', []) /\ s_rev_seen st' = s_rev_seen st /\ inv2 S i pos false st'.
+  exists st', close_c2s fixedv st = (st', []) /\ s_rev_seen st' = s_rev_seen st /\ inv2 S i pos false st'.
 Proof.
   intros S i pos st (Hex & Hcfg & Hrev & Hsv & Hopn & Hpos).
   unfold close_c2s. rewrite Hrev. eexists. split; [reflexivity|]. split; [reflexivity|].
